@@ -626,6 +626,23 @@ fn dechunk(mut b: &[u8]) -> Option<Vec<u8>> {
     }
 }
 
+/// header values of the vectors write an octet >= 0x80 as {HH} (TLA+ strings are ASCII)
+fn unesc_bytes(s: &str) -> Vec<u8> {
+    let b = s.as_bytes();
+    let mut out = vec![];
+    let mut i = 0;
+    while i < b.len() {
+        if b[i] == b'{' && i + 3 < b.len() && b[i + 3] == b'}' {
+            if let Ok(x) = u8::from_str_radix(&s[i + 1..i + 3], 16) { out.push(x); i += 4; continue; }
+        }
+        out.push(b[i]);
+        i += 1;
+    }
+    out
+}
+/// octets as a string, one char per octet (so that comparing strings compares octets)
+fn latin1(b: &[u8]) -> String { b.iter().map(|x| *x as char).collect() }
+
 fn request_side(rep: &mut Report, vectors: &str) {
     for v in read_tagged(vectors, "REQ") {
         let has_body = v["has_body"].as_bool().unwrap();
@@ -646,7 +663,7 @@ fn request_side(rep: &mut Report, vectors: &str) {
                 method: v["method"].as_str().unwrap().into(),
                 uri: v["uri"].as_str().unwrap().into(),
                 version: if v["version"] == "2" { VVersion::Http2 } else { VVersion::Http11 },
-                headers: v["hdrs_in"].as_array().unwrap().iter().map(|h| (h[0].as_str().unwrap().to_string(), h[1].as_str().unwrap().as_bytes().to_vec())).collect(),
+                headers: v["hdrs_in"].as_array().unwrap().iter().map(|h| (h[0].as_str().unwrap().to_string(), unesc_bytes(h[1].as_str().unwrap()))).collect(),
             };
             let class = format!("forwarded:req:{}:{}:h{}", kind, v["method"].as_str().unwrap(), v["version"].as_str().unwrap());
             let detail = |what: &str, got: &[u8]| json!({"kind": "request", "vector": v, "client_body": String::from_utf8_lossy(&client_bytes), "accept_per_write": if accept == usize::MAX { json!("all") } else { json!(accept) }, "what": what, "forwarded": String::from_utf8_lossy(got)});
@@ -685,7 +702,7 @@ fn request_side(rep: &mut Report, vectors: &str) {
                 rep.violation_with(format!("{}:head", class), "no complete request head was forwarded", || detail("head", &got));
                 continue;
             };
-            let head_txt = String::from_utf8_lossy(&got[..hend]).to_string();
+            let head_txt = latin1(&got[..hend]);
             let rest = &got[hend + 4..];
             let mut lines = head_txt.split("\r\n");
             let rl = lines.next().unwrap_or("");
@@ -695,7 +712,7 @@ fn request_side(rep: &mut Report, vectors: &str) {
             }
             let mut hs: Vec<(String, String)> = lines.filter_map(|l| l.split_once(':').map(|(n, val)| (n.trim().to_ascii_lowercase(), val.trim().to_string()))).collect();
             hs.sort_by(|a, b| a.0.cmp(&b.0));
-            let mut want = exp_hdrs_sorted(&v["hdrs"]);
+            let mut want: Vec<(String, String)> = exp_hdrs_sorted(&v["hdrs"]).into_iter().map(|(n, val)| (n, latin1(&unesc_bytes(&val)))).collect();
             let te = ("transfer-encoding".to_string(), "chunked".to_string());
             let added_te = !want.contains(&te) && hs.contains(&te);
             if kind == "chunk" || (kind == "nobody" && added_te) {
